@@ -1234,12 +1234,18 @@ pub(super) fn nop(
 pub(super) fn ret(
     instruction_graph: &mut il::ControlFlowGraph,
     _successors: &mut [(u64, Option<il::Expression>)],
-    _instruction: &bad64::Instruction,
+    instruction: &bad64::Instruction,
 ) -> Result<()> {
     let block_index = {
         let block = instruction_graph.new_block().unwrap();
 
-        block.branch(expr!("x30"));
+        // `ret` returns to x30 unless a register operand is given (`ret x1`)
+        let dst = match instruction.operands().first() {
+            Some(operand) => operand_load(block, operand, 64)?,
+            None => expr!("x30"),
+        };
+
+        block.branch(dst);
 
         block.index()
     };
